@@ -19,4 +19,7 @@ HARNESSES = [
          bounds="one run: any flag byte, any 8 commands, stream ending at any byte"),
     dict(name="lz5.init", src="C03/lz5.c", entry="harness_init", unwind=4100, units=["lib/lz5_decoder.c:fill_initial,lha_lz5_init"], timeout=300,
          bounds="all 4096 ring indices (symbolic index) vs closed formula"),
+    dict(name="null.read", src="C03/null.c", unwind=16, units=["lib/null_decoder.c", "lib/lha_decoder.c:lha_decoder_for_name"], timeout=120,
+         bounds="symbolic stream of 0..8 bytes, symbolic short reads, two consecutive reads; truncation to the declared length is C14's lha_decoder_read claim",
+         stubs=["cb_read"]),
 ]
